@@ -127,6 +127,7 @@ pub fn step_strategy(reg: Reg, class_c: bool, allow_join: bool) -> impl Strategy
         v.push((1, prop_oneof![4 => 1u16..6, 1 => 40u16..90].prop_map(Step::JoinSilence).boxed()));
         v.push((1, Just(Step::JoinAbp).boxed()));
         v.push((1, (0u8..5).prop_map(Step::SetCreds).boxed()));
+        v.push((1, (any::<bool>(), prop_oneof![Just(0u32), 1u32..40, 0xFFFEu32..0x10002, Just(0xFFFF_FFFEu32)], proptest::option::of(prop_oneof![0u32..40, 0xFFF0u32..0x10010])).prop_map(|(alt, fcnt_up, fcnt_down)| Step::SetSession { alt, fcnt_up, fcnt_down }).boxed()));
     }
     proptest::strategy::Union::new_weighted(v)
 }
